@@ -1,15 +1,18 @@
 """
 C03 — every produced image satisfies the on-disk invariants other readers rely on.
 
-Proof: Sqfs/Props/C03.lean (models of the writer's pieces: dir writer header runs, meta writer chunking, block size
-rule under the codec contract, id table bound; all inputs).  Tie:
-  (1) harness/h_c03.c runs the real get_conseq_entry_count / sqfs_dir_writer_* / sqfs_meta_writer_* / process_block /
-      sqfs_id_table_* (ASan+UBSan, working tree) on the same generated lines as `sqfsmodel c03 ops`; independent
-      Python monitors evaluate the specification on the implementation's answers;
+Proof: Sqfs/Props/C03.lean (models of the writer's pieces: dir writer header runs and index on the real meta writer model,
+export table, sorted insertion into a directory, meta writer chunking, write_table locations, block size rule and size word
+under the codec contract, id table bound, inode numbering incl. reorder_hard_links, file inode thresholds, layout/padding;
+all inputs).  Tie:
+  (1) harness/h_c03.c, h_c03n.c, h_c03f.c run the real functions (#included or linked from the working tree, ASan+UBSan) on
+      the same generated lines as `sqfsmodel c03 ops`; independent Python monitors evaluate the specification on the
+      implementation's answers; one answer per line is enforced on both sides;
   (2) every backend's do_block is probed against the size contract the theorems assume;
   (3) real gensquashfs / tar2sqfs build images from generated trees hitting the quantifier's boundaries; each image goes
       through harness/unz.c -> `sqfsmodel c03 validate` (the executable invariant list, written from format.adoc) which
-      must report nothing, and `sqfsmodel c03 parse` is compared with the generated tree and with rdsquashfs.
+      must report nothing; `sqfsmodel c03 parse` is compared with the generated tree (attributes, link counts, xattrs, every
+      file's content reassembled from the unpacked blocks) and with rdsquashfs.
 """
 import concurrent.futures as cf
 import io, json, os, struct, subprocess, tarfile, time
@@ -21,7 +24,10 @@ MODULE = "Sqfs.Props.C03"
 REQUIRED = ["Sqfs.C03.conseq_count_ok", "Sqfs.C03.dir_end_headers_ok", "Sqfs.C03.add_entry_name_fits",
             "Sqfs.C03.meta_block_le_8k", "Sqfs.C03.meta_stored_le_unpacked", "Sqfs.C03.data_block_size_rule",
             "Sqfs.C03.id_count_fits", "Sqfs.C03.finish_order", "Sqfs.C03.pad_multiple",
-            "Sqfs.C03.inode_numbers_bijective", "Sqfs.C03.children_before_parent", "Sqfs.C03.dir_index_count_exact"]
+            "Sqfs.C03.inode_numbers_bijective", "Sqfs.C03.children_before_parent", "Sqfs.C03.dir_index_count_exact",
+            "Sqfs.C03.dir_index_points_at_headers", "Sqfs.C03.export_table_resolves", "Sqfs.C03.write_table_locations",
+            "Sqfs.C03.keep_in_memory_same_blocks", "Sqfs.C03.listing_strictly_sorted",
+            "Sqfs.C03.inode_numbers_dense_after_reorder", "Sqfs.C03.link_targets_before_linking_dirs", "Sqfs.C03.file_inode_values_exact"]
 
 K_D11 = "D11:lz4-block-not-smaller"
 K_D8 = "D8:id-count-wraps"
@@ -35,16 +41,17 @@ def hx(b):
     return b.hex() if b else "-"
 
 
-MAX_REPORTS = 12
-_reported = [0]
+MAX_REPORTS = 6          # per kind of finding (key prefix): keeps one broken rule from hiding the others
+_reported = {}
 
 
 def report(ctx, key, what, replay, found_input=True):
-    """ctx.violation with a cap on the number of VIOLATION lines of one run (known findings always go through)"""
+    """ctx.violation with a cap on the number of VIOLATION lines per kind in one run (known findings always go through)"""
     if ctx.known_finding(key) is None:
-        _reported[0] += 1
-        if _reported[0] > MAX_REPORTS:
-            ctx.cov["violations_suppressed_after_cap"] = _reported[0] - MAX_REPORTS
+        kind = key.split(":")[0]
+        _reported[kind] = _reported.get(kind, 0) + 1
+        if _reported[kind] > MAX_REPORTS:
+            ctx.cov["violations_suppressed_after_cap"] = ctx.cov.get("violations_suppressed_after_cap", 0) + 1
             return
     ctx.violation(key, what, replay, found_input)
 
@@ -53,6 +60,25 @@ def shx(cmd, **kw):
     """vlib.sh, tolerant of binary bytes in the tools' chatter"""
     kw.setdefault("errors", "replace")
     return vlib.sh(cmd, **kw)
+
+
+def zip_strict(*seqs):
+    """zip() that refuses streams of unequal length: a short answer stream must never silently drop comparisons"""
+    n = len(seqs[0])
+    for q in seqs[1:]:
+        if len(q) != n:
+            raise vlib.CheckFailure("internal: streams of unequal length compared (%s)" % [len(x) for x in seqs])
+    return zip(*seqs)
+
+
+def driver_lines(ctx, lines, timeout=1500):
+    """`sqfsmodel c03 ops` on `lines`; exactly one answer per line or the check cannot complete"""
+    if not lines:
+        return []
+    out = ctx.driver(["c03", "ops"], "\n".join(lines) + "\n", timeout)
+    if len(out) != len(lines):
+        raise vlib.CheckFailure("model driver answered %d lines for %d op lines" % (len(out), len(lines)))
+    return out
 
 
 # ----------------------------------------------------------------------------------------------------------------
@@ -129,7 +155,7 @@ def gen_ops(ctx):
         ents = [(b"n%07d" % i, 1 + (i % 2), ((i % 2) * 8194) << 16, 0o100644) for i in range(n)]
         add("dirw 0 0 %d 0 %s" % (NOIDX, " ".join(tok_dirw(e) for e in ents)), op="dirw", ents=ents, off0=0, manyhdr=n)
     # meta writer
-    for codec in ("raw", "toy", "grow"):
+    for codec in ("raw", "toy", "grow", "trail"):
         pats = [[], [1], [8191], [8192], [8193], [8192, 8192], [16384], [3 * 8192 + 5], [5000, 5000], [1] * 40,
                 [8000, 100, 92, 1], [4, 4, 4], [12], [13]]
         for _ in range(1 if q else 6):
@@ -144,7 +170,8 @@ def gen_ops(ctx):
             add("meta %s %s" % (codec, " ".join(hx(c) for c in chunks)), op="meta", codec=codec, chunks=chunks)
     # block rule
     for codec in ("raw", "toy", "grow"):
-        for flags in (0, 1, 16, 17, 8192, 8192 | 16, 4, 2):
+        # incl. SQFS_BLK_FRAGMENT_BLOCK (0x4000): never sparse since /repo 47f7b3d, alone and with the flags it travels with
+        for flags in (0, 1, 16, 17, 8192, 8192 | 16, 4, 2, 16384, 16384 | 1, 16384 | 16, 16384 | 2, 8192 | 1, 8, 16384 | 8):
             for data in (b"", b"\0", b"\0" * 100, b"\x07" * 50, b"\x07" * 3, rng.randbytes(5), rng.randbytes(12), rng.randbytes(13), rng.randbytes(300)):
                 add("blk %s %d %s" % (codec, flags, hx(data)), op="blk", codec=codec, flags=flags, data=data)
     # id table
@@ -155,7 +182,135 @@ def gen_ops(ctx):
         add("ids " + " ".join(map(str, ids)), op="ids", ids=ids)
     for n in ([3000] if q else [3000, 65535]):
         add("idsrange %d" % n, op="idsrange", n=n)
+    gen_ops_more(ctx, add)
     return lines, meta
+
+
+DEVBLKS = [1024, 1031, 1536, 3000, 3072, 4096, 4097, 5120, 7919, 12288, 65536, 65537, 1000000, 1048573, 1048576]
+
+
+def gen_entries_x(rng, n, kind):
+    """entry lists for `dirx`: inode numbers 1..3000 (the export table has one slot per number), a number always comes with
+    the same reference (as in the serializer), names end in runs so that the `trail` codec shrinks some blocks"""
+    blk_of = lambda num: (num // rng_blk) * 300
+    rng_blk = rng.choice([7, 40, 5000])
+    out, used = [], set()
+    num = rng.choice([1, 2, 700])
+    for i in range(n):
+        if kind == "hl" and i and rng.random() < 0.3:
+            num = rng.choice(sorted(used))          # a hard link: the same inode under another name
+        else:
+            num = num + rng.choice([1, 1, 1, 2, 5]) if kind != "jump" or rng.random() > 0.1 else num + rng.choice([300, 900])
+            num = (num - 1) % 3000 + 1
+        used.add(num)
+        nl = rng.choice([1, 3, 9, 30, 100, 200, 256])
+        k = min(nl - 1, rng.choice([0, 2, 5, 40, 250]))
+        name = (b"%04d" % i + gen_name(rng, nl))[:nl - k] + bytes([rng.choice(b"xyz_")]) * k
+        mode = rng.choice([0o100644, 0o40755, 0o120777, 0o10644])
+        out.append((name, num, (blk_of(num) << 16) | (num * 32 % 8192), mode))
+    return out
+
+
+def gen_ops_more(ctx, add):
+    rng = ctx.rng
+    q = ctx.quick()
+    # sqfs_write_table: locations, start, blocks; codecs that shrink some blocks and not others
+    for codec in ("raw", "toy", "trail", "grow"):
+        sizes = [0, 1, 4, 12, 8191, 8192, 8193, 16384, 16385, 3 * 8192 + 5] + [rng.randrange(1, 40000) for _ in range(2 if q else 8)]
+        for n in sizes:
+            for kind in (("rand", "runs") if q else ("rand", "runs", "ff", "const")):
+                if kind == "rand":
+                    d = rng.randbytes(n)
+                elif kind == "const":
+                    d = bytes([rng.randrange(256)]) * n
+                elif kind == "ff":        # like an export table with holes
+                    d = b"".join(rng.choice([b"\xff" * 8, rng.randbytes(8)]) for _ in range(n // 8 + 1))[:n]
+                else:                     # runs of random length: chunk boundaries fall inside and outside runs
+                    d = b""
+                    while len(d) < n:
+                        d += bytes([rng.randrange(256)]) * rng.choice([1, 2, 3, 4, 5, 17, 300, 5000, 9000])
+                    d = d[:n]
+                base = rng.choice([0, 96, 4096, 123457])
+                add("table %s %d %s" % (codec, base, hx(d)), op="table", codec=codec, base=base, data=d)
+    # KEEP_IN_MEMORY + write_to_file
+    for codec in ("raw", "toy", "trail"):
+        for p in [[], [1], [8192], [8193], [8192, 8192, 5], [3 * 8192 + 5], [5000, 5000, 5000], [100] * 200] + \
+                 [[rng.randrange(0, 9000) for _ in range(rng.randrange(1, 8))] for _ in range(1 if q else 5)]:
+            chunks = [bytes([rng.randrange(256)]) * n if rng.random() < 0.5 else rng.randbytes(n) for n in p]
+            add("metak %s %s" % (codec, " ".join(hx(c) for c in chunks)), op="metak", codec=codec, chunks=chunks)
+    # the dir writer on a compressing meta writer, in memory or not, with and without export table
+    shapes = [("plain", 1), ("plain", 2), ("plain", 40), ("plain", 300), ("hl", 60), ("hl", 400), ("jump", 300), ("plain", 700)]
+    for rep in range(1 if q else 4):
+        for kind, n in shapes:
+            ents = gen_entries_x(rng, n, kind)
+            codec = rng.choice(["trail", "trail", "toy", "raw"])
+            keep, exp = rng.choice([0, 1, 1]), rng.choice([0, 1, 1])
+            off0 = rng.choice([0, 100, 8100, 8191, 8192, 8193, 20000, rng.randrange(40000)])
+            rootnum = max(e[1] for e in ents) + rng.choice([1, 1, 2, 600])
+            xattr = rng.choice([NOIDX, NOIDX, 3])
+            add("dirx %s %d %d %d %d %d %d %d %d %s" % (codec, keep, exp, off0, rng.choice([0, 2]), xattr, rng.choice([0, 9]), rootnum,
+                                                       (77 << 16) | 5, " ".join(tok_dirw(e) for e in ents)),
+                op="dirx", codec=codec, keep=keep, exp=exp, off0=off0, ents=ents, rootnum=rootnum, rootref=(77 << 16) | 5)
+    add("dirx trail 1 1 0 0 %d 0 0 5 %s" % (NOIDX, tok_dirw((b"a", 1, 32, 0o100644))), op="dirx", codec="trail", keep=1, exp=1, off0=0,
+        ents=[(b"a", 1, 32, 0o100644)], rootnum=0, rootref=5)          # root inode number 0: refused
+    add("dirx raw 0 1 0 0 %d 0 1 5" % NOIDX, op="dirx", codec="raw", keep=0, exp=1, off0=0, ents=[], rootnum=1, rootref=5)
+    # insert_sorted / child_by_name: names in arbitrary order with repetitions, prefixes, bytes >= 0x80 (strcmp is unsigned)
+    alpha = [b for b in range(1, 256) if b != 0x2f]
+    for _ in range(40 if q else 400):
+        n = rng.choice([0, 1, 2, 5, 20, 120])
+        pool = []
+        for _ in range(max(1, n // 2 + 1)):
+            base = bytes(rng.choice([rng.choice(alpha), rng.choice(b"ab\x7f\x80\xff")]) for _ in range(rng.choice([1, 1, 2, 3, 6])))
+            pool += [base, base + bytes([rng.choice(alpha)])] if rng.random() < 0.4 else [base]
+        names = [rng.choice(pool) for _ in range(n)]
+        add("names " + " ".join(n_.hex() for n_ in names) if names else "names", op="names", names=names)
+    # inode.c: basic vs extended file inodes around the 32-bit limits
+    big = [0, 1, 0xFFFFFFFE, 0xFFFFFFFF, 0x100000000, 0x100000001, 0x1FFFFFFFF, 1 << 40, (1 << 64) - 1]
+    for _ in range(60 if q else 600):
+        toks = []
+        for _ in range(rng.choice([1, 2, 3, 5, 9])):
+            k = rng.choice("SSSBBXPFeb")
+            if k in "SB":
+                toks.append("%s%d" % (k, rng.choice(big + [rng.randrange(1 << 34)])))
+            elif k == "X":
+                toks.append("X%d" % rng.choice([NOIDX, NOIDX, 0, 5, 0xFFFFFFFE]))
+            elif k == "P":
+                toks.append("P%d" % rng.choice([0, 1, 4096, 0xFFFFFFFF]))
+            elif k == "F":
+                toks.append("F%d,%d" % (rng.choice([0, 7, NOIDX]), rng.choice([0, 4095, NOIDX])))
+            else:
+                toks.append(k)
+        add("fino " + " ".join(toks), op="fino", toks=toks)
+    # padd_sqfs: device block sizes that are and are not powers of two
+    for bs in DEVBLKS + [rng.randrange(1024, 1 << 20) | 1 for _ in range(4 if q else 40)] + [rng.randrange(1024, 1 << 20) for _ in range(3 if q else 30)]:
+        for size in [0, 1, bs - 1, bs, bs + 1, 7 * bs, 96, rng.randrange(1 << 20), rng.randrange(1 << 33), (1 << 40) + rng.randrange(1 << 20)]:
+            add("pad %d %d" % (size, bs), op="pad", size=size, bs=bs)
+
+
+def gen_dirsize_targets(ctx):
+    """`dirw` lines whose listing size is exactly 65531..65536 with fewer than 256 entries: the window in which the choice
+    between a basic and an extended directory inode (dir_writer.c: `dir_size > 0xFFFF - 3`) matters.  The sizes are
+    reached by asking the model for the size of a candidate and lengthening names one byte at a time."""
+    rng = ctx.rng
+    out = []
+    for target in (65531, 65532, 65533, 65534, 65535, 65536):
+        n = 248
+        lens = [255] * n
+        blk = rng.choice([0, 8194])
+        line = None
+        for _ in range(6):
+            ents = [(b"%03d" % i + b"q" * (lens[i] - 3), 10 + i, (blk << 16) | (i * 32), 0o100644) for i in range(n)]
+            line = "dirw 0 0 %d 0 %s" % (NOIDX, " ".join(tok_dirw(e) for e in ents))
+            ans = driver_lines(ctx, [line])[0]
+            size = int(ans.split(" size=")[1].split()[0])
+            if size == target:
+                break
+            d = target - size
+            idx = [i for i in range(n) if (lens[i] < 256 if d > 0 else lens[i] > 200)]
+            for i in idx[:abs(d)]:
+                lens[i] += 1 if d > 0 else -1
+        out.append((line, dict(op="dirw", ents=ents, off0=0, dirsize_target=target, dirsize=size)))
+    return out
 
 
 # ----------------------------------------------------------------------------------------------------------------
@@ -287,10 +442,19 @@ def monitor_meta(m, ans):
 
 def monitor_blk(m, ans):
     f = ans.split()
-    if len(f) != 2:
+    if len(f) != 4 or not f[2].startswith("iw=") or not f[3].startswith("fw="):
         return ["unexpected answer"]
     flags, d = int(f[0]), (bytes.fromhex(f[1]) if f[1] != "-" else b"")
     bad = []
+    # the size word process_completed_block records: stored size in the low 24 bits, bit 24 set iff stored uncompressed
+    words = [int(x.split("=")[1]) for x in f[2:] if not x.endswith("=-")]
+    if len(words) > 1:
+        bad.append("both an inode word and a fragment table word recorded")
+    if d and not flags & 0x0400:
+        if len(words) != 1 or words[0] & 0xFFFFFF != len(d) or bool(words[0] >> 24 & 1) == bool(flags & 0x8000) or words[0] >> 25:
+            bad.append("size word %s for %d stored bytes, compressed=%s" % (words, len(d), bool(flags & 0x8000)))
+        if bool(flags & 0x4000) != f[2].endswith("=-"):
+            bad.append("size word recorded in the wrong place (%s %s)" % (f[2], f[3]))
     comp = bool(flags & 0x8000)
     if m["codec"] != "grow":
         if len(d) > len(m["data"]):
@@ -299,6 +463,8 @@ def monitor_blk(m, ans):
             bad.append("compressed flag %s but %d vs %d bytes" % (comp, len(d), len(m["data"])))
     if not comp and d != m["data"]:
         bad.append("not flagged compressed but bytes changed")
+    if m["flags"] & 0x4000 and flags & 0x0400:
+        bad.append("a fragment block was flagged sparse (it would not be written and its table entry stay (0,0))")
     return bad
 
 
@@ -328,7 +494,237 @@ def monitor_idsrange(m, ans):
     return [] if int(kv.get("id_count", -1)) == n else ["id_count %s for %d distinct ids" % (kv.get("id_count"), n)]
 
 
-MONITORS = {"conseq": monitor_conseq, "meta": monitor_meta, "blk": monitor_blk, "ids": monitor_ids, "idsrange": monitor_idsrange}
+def unpack_test_block(codec, comp, d):
+    """inverse of the harness' test codecs (raw never compresses)"""
+    if not comp:
+        return d
+    if codec == "toy" and len(d) == 3:
+        return bytes([d[0]]) * (d[1] | d[2] << 8)
+    if codec == "trail" and len(d) >= 3:
+        return d[:-3] + bytes([d[-3]]) * (d[-2] | d[-1] << 8)
+    if codec == "grow" and len(d) >= 1:
+        return d[1:]
+    raise ValueError("block flagged compressed cannot come from codec %s" % codec)
+
+
+def split_meta_blocks(b):
+    """[(offset, compressed, stored bytes)] of a run of metadata blocks; raises if the run does not end on a block boundary"""
+    out, p = [], 0
+    while p < len(b):
+        if p + 2 > len(b):
+            raise ValueError("truncated block header at %d" % p)
+        h = struct.unpack_from("<H", b, p)[0]
+        n = h & 0x7FFF
+        if p + 2 + n > len(b):
+            raise ValueError("block at %d runs past the end" % p)
+        out.append((p, not (h >> 15), b[p + 2:p + 2 + n]))
+        p += 2 + n
+    return out
+
+
+def check_table(codec, base, start, locs_txt, filehex, data):
+    """the specification of sqfs_write_table evaluated on what the implementation wrote; returns violated clauses"""
+    bad = []
+    b = bytes.fromhex(filehex) if filehex != "-" else b""
+    locs = [] if locs_txt == "-" else [int(x) for x in locs_txt.split(",")]
+    nblk = (len(data) + 8191) // 8192
+    if len(locs) != nblk:
+        bad.append("%d locations for a table of %d bytes (%d blocks)" % (len(locs), len(data), nblk))
+    if start - base < 0 or start - base > len(b):
+        return bad + ["start %d outside what was written" % start]
+    try:
+        blocks = split_meta_blocks(b[:start - base])
+    except ValueError as e:
+        return bad + ["blocks before the location list do not parse: %s" % e]
+    if len(blocks) != nblk:
+        bad.append("%d metadata blocks for a table of %d bytes" % (len(blocks), len(data)))
+    if b[start - base:] != b"".join(struct.pack("<Q", x) for x in locs):
+        bad.append("bytes at `start` are not the location list")
+    for i, (off, comp, d) in enumerate(blocks):
+        if i < len(locs) and locs[i] != base + off:
+            bad.append("location %d is %d, block %d starts at %d" % (i, locs[i], i, base + off))
+        try:
+            raw = unpack_test_block(codec, comp, d)
+        except ValueError as e:
+            bad.append("block %d: %s" % (i, e)); continue
+        if raw != data[i * 8192:(i + 1) * 8192]:
+            bad.append("block %d does not unpack to bytes %d.. of the table" % (i, i * 8192))
+    return bad
+
+
+def monitor_table(m, ans):
+    kv = dict(x.split("=", 1) for x in ans.split() if "=" in x)
+    if not {"start", "locs", "file"} <= set(kv):
+        return ["unexpected answer"]
+    return check_table(m["codec"], m["base"], int(kv["start"]), kv["locs"], kv["file"], m["data"])
+
+
+def monitor_metak(m, ans):
+    f = ans.split()
+    if len(f) != 4 or not f[2].startswith("filebefore="):
+        return ["unexpected answer"]
+    bad = []
+    if f[2] != "filebefore=0":
+        bad.append("a KEEP_IN_MEMORY meta writer wrote to the file before write_to_file (%s)" % f[2])
+    b = bytes.fromhex(f[3]) if f[3] != "-" else b""
+    stream = b"".join(m["chunks"])
+    try:
+        blocks = split_meta_blocks(b)
+        raw = [unpack_test_block(m["codec"], c, d) for _, c, d in blocks]
+    except ValueError as e:
+        return bad + [str(e)]
+    if b"".join(raw) != stream:
+        bad.append("stream not preserved")
+    if any(len(r) != 8192 for r in raw[:-1]) or (raw and not 1 <= len(raw[-1]) <= 8192):
+        bad.append("block sizes %s" % [len(r) for r in raw][:6])
+    end = f[1].split("=")[1].split(",")
+    if int(end[0]) != len(b) or int(end[1]) != 0:
+        bad.append("final position %s for %d bytes written" % (f[1], len(b)))
+    return bad
+
+
+def monitor_dirx(m, ans):
+    if not ans.startswith("ok "):
+        if m["rootnum"] == 0 or not m["ents"]:
+            return []
+        return ["refused: " + ans[:60]]
+    f = ans.split()
+    kv = dict(x.split("=", 1) for x in f if "=" in x)
+    bad = []
+    ents, off0, codec = m["ents"], m["off0"], m["codec"]
+    if m["keep"] and kv.get("filebefore") != "0":
+        bad.append("KEEP_IN_MEMORY writer wrote %s bytes before write_to_file" % kv.get("filebefore"))
+    tb = bytes.fromhex(kv["table"]) if kv["table"] != "-" else b""
+    try:
+        blocks = split_meta_blocks(tb)
+        raws = [unpack_test_block(codec, c, d) for _, c, d in blocks]
+    except ValueError as e:
+        return bad + ["directory table does not parse: %s" % e]
+    stream = b"".join(raws)
+    if any(len(r) != 8192 for r in raws[:-1]):
+        bad.append("a directory table block other than the last does not hold 8192 bytes")
+    if stream[:off0] != b"\x55" * off0:
+        bad.append("bytes in front of the listing changed")
+    listing = stream[off0:]
+    try:
+        runs = decode_listing(listing)
+    except (struct.error, ValueError) as e:
+        return bad + ["listing does not decode: %s" % e]
+    flat = [(nm, (ino + dl) % (1 << 32), (start << 16) | off, typ) for _, _, start, ino, es in runs for off, dl, typ, nm in es]
+    want = [(e[0], e[1], ((e[2] >> 16) % (1 << 32)) << 16 | (e[2] & 0xFFFF), TYPE_OF_MODE[e[3] & 0o170000]) for e in ents]
+    if flat != want:
+        bad.append("decoded entries differ from the entries added")
+    if any(cnt > 256 for _, cnt, _, _, _ in runs):
+        bad.append("header with more than 256 entries")
+    if int(kv["size"]) != len(listing):
+        bad.append("dir_size %s but %d bytes written" % (kv["size"], len(listing)))
+    blkoff = [o for o, _, _ in blocks]
+    # the reference recorded by sqfs_dir_writer_begin
+    ref = int(kv["ref"])
+    if off0 // 8192 < len(blkoff) or not listing:
+        want_blk = blkoff[off0 // 8192] if off0 // 8192 < len(blkoff) else len(tb)
+        if ref != (want_blk << 16 | off0 % 8192):
+            bad.append("dir_ref %d, the listing starts in the block at %d, offset %d" % (ref, want_blk, off0 % 8192))
+    k = f.index(next(x for x in f if x.startswith("inode=")))
+    if f[k] == "inode=ext":
+        n_ann = int(kv["n"])
+        idx = [] if kv["idx"] == "-" else [x.split(";") for x in kv["idx"].split(",")]
+        if n_ann != len(idx) or len(idx) != min(len(runs), 65535):
+            bad.append("index count %d, %d index entries, %d headers" % (n_ann, len(idx), len(runs)))
+        for j, (ix, ib, nm) in enumerate(idx):
+            hp, cnt, start, ino, es = runs[j] if j < len(runs) else (None, 0, 0, 0, [])
+            if hp is None or int(ix) != hp:
+                bad.append("index entry %d: offset %s, header %d is at %s" % (j, ix, j, hp)); break
+            holder = (off0 + hp) // 8192
+            if holder >= len(blkoff) or int(ib) != blkoff[holder]:
+                bad.append("index entry %d names block %s, the header lies in block %d at %s" % (j, ib, holder, blkoff[holder] if holder < len(blkoff) else None)); break
+            if bytes.fromhex(nm) != es[0][3]:
+                bad.append("index entry %d is named %s, first entry is %r" % (j, nm, es[0][3])); break
+        if int(f[k + 2]) != len(listing) + 3:
+            bad.append("directory inode announces size %s for a listing of %d bytes (+3)" % (f[k + 2], len(listing)))
+    else:
+        if int(f[k + 2]) != len(listing) + 3 or len(listing) + 3 > 0xFFFF or len(ents) >= 256:
+            bad.append("basic directory inode (size field %s) for a listing of %d bytes / %d entries" % (f[k + 2], len(listing), len(ents)))
+    if m["exp"] and m["rootnum"] == 0:
+        if not any(x.startswith("export=err") for x in f):
+            bad.append("root inode number 0 accepted for the export table")
+    elif m["exp"]:
+        if "export" not in f:
+            bad.append("export table missing: " + ans[-60:])
+        else:
+            e = f.index("export")
+            start = int(f[e + 1].split("=")[1])
+            nums = {x[1]: x[2] for x in ents}
+            nums[m["rootnum"]] = m["rootref"]
+            table = b"".join(struct.pack("<Q", nums.get(i, 0xFFFFFFFFFFFFFFFF)) for i in range(1, max(nums) + 1))
+            eb = bytes.fromhex(f[e + 2]) if f[e + 2] != "-" else b""
+            nloc = (len(table) + 8191) // 8192
+            locs = struct.unpack_from("<%dQ" % nloc, eb, len(eb) - 8 * nloc) if len(eb) >= 8 * nloc else ()
+            bad += ["export table: " + x for x in check_table(codec, len(tb), start, ",".join(map(str, locs)) or "-", f[e + 2], table)]
+    return bad
+
+
+def monitor_names(m, ans):
+    kv = dict(x.split("=", 1) for x in ans.split() if "=" in x)
+    names = m["names"]
+    order = [] if kv.get("order", "-") == "-" else [bytes.fromhex(x) for x in kv["order"].split(",")]
+    bad = []
+    if any(not a < b for a, b in zip(order, order[1:])):
+        bad.append("children not strictly sorted by strcmp")
+    if set(order) != set(names) or len(order) != len(set(names)):
+        bad.append("children are not the distinct names that were added")
+    if int(kv.get("link", -1)) != 2 + len(order):
+        bad.append("link count %s with %d children" % (kv.get("link"), len(order)))
+    seen, rcs = set(), []
+    for n in names:
+        rcs.append("EEXIST" if n in seen else "0")
+        seen.add(n)
+    if kv.get("rc", "") != ",".join(rcs):
+        bad.append("return codes %s, expected %s" % (kv.get("rc", "")[:60], ",".join(rcs)[:60]))
+    return bad
+
+
+def monitor_fino(m, ans):
+    """no value is narrowed: whatever layout inode.c picked, a reader gets back exactly the values that were set"""
+    want = {"start": 0, "size": 0, "sparse": 0, "nlink": 1, "frag": "0,0", "xattr": NOIDX}
+    for t in m["toks"]:
+        if t[0] == "S":
+            want["size"] = int(t[1:])
+        elif t[0] == "B":
+            want["start"] = int(t[1:])
+        elif t[0] == "X":
+            want["xattr"] = int(t[1:])
+        elif t[0] == "P":
+            want["sparse"] = (want["sparse"] + int(t[1:])) % (1 << 64)
+        elif t[0] == "F":
+            want["frag"] = t[1:]
+    f = ans.split()
+    if not f or f[0] not in ("basic", "ext"):
+        return ["unexpected answer"]
+    got = {"sparse": 0, "nlink": 1, "xattr": NOIDX}
+    for x in f[1:]:
+        k, v = x.split("=")
+        got[k] = v if k == "frag" else int(v)
+    return ["%s inode reads back %s=%s, %s was set" % (f[0], k, got.get(k), want[k]) for k in want if got.get(k) != want[k]]
+
+
+def monitor_pad(m, ans):
+    kv = dict(x.split("=", 1) for x in ans.split() if "=" in x)
+    bad = []
+    if "BAD-WRITE" in ans:
+        bad.append("padding is not zero bytes appended at the end of the file")
+    if kv.get("rc") != "0":
+        bad.append("padd_sqfs failed: " + ans)
+    pad = int(kv.get("pad", -1))
+    if (m["size"] + pad) % m["bs"] != 0 or not 0 <= pad < m["bs"]:
+        bad.append("size %d + padding %d is not the next multiple of the device block size %d" % (m["size"], pad, m["bs"]))
+    return bad
+
+
+MONITORS = {"conseq": monitor_conseq, "meta": monitor_meta, "blk": monitor_blk, "ids": monitor_ids, "idsrange": monitor_idsrange,
+            "table": monitor_table, "metak": monitor_metak, "dirx": monitor_dirx, "names": monitor_names, "pad": monitor_pad,
+            "fino": monitor_fino}
+HARNESS_OF = {"names": "h_c03n", "num": "h_c03n", "pad": "h_c03f"}       # every other op: h_c03
 
 
 def gen_spec(rng, depth, width, hl):
@@ -406,15 +802,56 @@ def monitor_num(m, ans):
     return bad
 
 
+def link_targets(rng, sp):
+    """give every `h` of a spec a target: the k-th `f` (any of them, before or after the link)"""
+    nf = sp.count("f")
+    if "h" in sp and nf == 0:
+        sp, nf = "f" + sp, 1
+    return "".join("h%d" % rng.randrange(nf) if c == "h" else c for c in sp)
+
+
+def monitor_num_links(spec, ans):
+    """children before parent also for hard links: a directory's number exceeds that of every inode its hard-link entries
+    name (the target must have been serialised, its reference known, when the directory's listing is written)"""
+    import re
+    try:
+        root, _ = parse_num(ans)
+    except (ValueError, IndexError):
+        return []
+    toks = re.findall(r"h\d*|f|\(|\)", spec)
+    files, bad = [], []
+
+    def walk(node, it):          # collect file numbers in spec order
+        for k in node[2]:
+            t = next(it)
+            if t == "(":
+                walk(k, it); next(it)
+            elif t == "f":
+                files.append(k[1])
+    walk(root, iter(toks))
+
+    def check(node, it):
+        for k in node[2]:
+            t = next(it)
+            if t == "(":
+                check(k, it); next(it)
+            elif t.startswith("h"):
+                tgt = files[int(t[1:] or 0)]
+                if tgt >= node[1]:
+                    bad.append("directory %d links inode %d, which is serialised after it" % (node[1], tgt))
+    check(root, iter(toks))
+    return bad
+
+
 def numbering(ctx, harness_n):
     rng = ctx.rng
-    specs = ["", "f", "h" * 0, "()", "(())", "f(fh(f))f", "(h)f", "(f)(f)h", "ff(hh)(h(h))f", "((((((f))))))"]
+    specs = ["", "f", "()", "(())", "f(fh1(f))f", "(h0)f", "(f)(f)h1", "ff(h0h1)(h1(h0))f", "((((((f))))))", "(h1)(f)f", "((h3f)(h2fh3))ff(f)",
+             "(h2h1h0)fff(h0)"]
     for _ in range(150 if ctx.quick() else 2500):
         sp = gen_spec(rng, rng.randrange(0, 5), rng.choice([2, 4, 8, 30]), rng.choice([0.0, 0.0, 0.15, 0.4]))
-        if "h" in sp and "f" not in sp:
-            sp = "f" + sp
-        specs.append(sp)
+        specs.append(link_targets(rng, sp))
     specs.append("f" * 3000 + "(" + "f" * 300 + ")" * 1)
+    specs.append("(" + "".join("h%d" % k for k in range(0, 400, 3)) + ")" + "f" * 200 + "(" + "f" * 200 + "h7)")
     lines = ["num " + sp if sp else "num" for sp in specs]
     impl, crash = run_harness(ctx, harness_n, lines)
     if crash:
@@ -422,22 +859,22 @@ def numbering(ctx, harness_n):
         report(ctx, "crash:num:" + vlib.sha(lines[min(k, len(lines) - 1)])[:10], "fstree_post_process aborted (rc=%d): %s" % (rc, err[-300:]),
                {"kind": "num", "line": lines[min(k, len(lines) - 1)][:500]})
         return {"numbering_lines": len(impl)}
-    model = ctx.driver(["c03", "ops"], "\n".join(lines) + "\n")
-    reordered = exact = 0
-    for l, sp, a, b in zip(lines, specs, impl, model):
-        bad = monitor_num({"spec": sp}, a)
+    model = driver_lines(ctx, lines)
+    linked = exact = 0
+    for l, sp, a, b in zip_strict(lines, specs, impl, model):
+        bad = monitor_num({"spec": sp}, a) + monitor_num_links(sp, a)
         if bad:
             report(ctx, "num:" + vlib.sha(l)[:10], "inode numbering violates its specification: %s" % "; ".join(bad)[:300],
                    {"kind": "num", "line": l[:2000], "impl": a[:500], "model": b[:500]})
         elif a != b:
-            if "h" in sp:
-                reordered += 1          # reorder_hard_links moved link targets: not modelled, specification holds
-            else:
-                report(ctx, "corr:num:" + vlib.sha(l)[:10], "numbering model and fstree_post_process disagree on a tree without hard links: %s vs %s" % (a[:100], b[:100]),
-                       {"kind": "num", "line": l[:2000], "impl": a[:500], "model": b[:500]}, found_input=False)
+            report(ctx, "corr:num:" + vlib.sha(l)[:10], "numbering model (DFS + reorder_hard_links) and fstree_post_process disagree: %s vs %s" % (a[:100], b[:100]),
+                   {"kind": "num", "line": l[:2000], "impl": a[:500], "model": b[:500]}, found_input=False)
         else:
             exact += 1
-    return {"numbering_lines": len(lines), "numbering_equal_to_model": exact, "numbering_reordered_by_hard_links": reordered}
+            linked += "h" in sp
+    if linked == 0:
+        raise vlib.CheckFailure("internal: no tree with hard links was numbered")
+    return {"numbering_lines": len(lines), "numbering_equal_to_model": exact, "numbering_trees_with_hard_links": linked}
 
 
 def run_harness(ctx, harness, lines, timeout=1500):
@@ -450,9 +887,23 @@ def run_harness(ctx, harness, lines, timeout=1500):
     return out, crash
 
 
-def pieces(ctx, harness):
+def run_batch(ctx, harness, lines):
+    """(implementation answers, model answers, crash) for one batch of op lines; both streams have one answer per line"""
+    t0 = time.time()
+    impl, crash = run_harness(ctx, harness, lines)
+    t1 = time.time()
+    model = driver_lines(ctx, lines)
+    if time.time() - t0 > 5:
+        ctx.log("  batch of %d lines (%d bytes): real code %.1fs, model %.1fs" % (len(lines), sum(map(len, lines)), t1 - t0, time.time() - t1))
+    return impl, model, crash
+
+
+def pieces(ctx, harnesses):
+    """harnesses: {"h_c03": path, "h_c03n": path, "h_c03f": path}"""
     t0 = time.time()
     lines, meta = gen_ops(ctx)
+    for l, m in gen_dirsize_targets(ctx):
+        lines.append(l); meta.append(m)
     cdir = vlib.CORPUS / "C03"
     ncorpus = 0
     if cdir.exists():
@@ -460,29 +911,42 @@ def pieces(ctx, harness):
             for l in p.read_text().splitlines():
                 if l.strip():
                     lines.insert(ncorpus, l.strip()); meta.insert(ncorpus, {"op": "corpus"}); ncorpus += 1
-    with cf.ThreadPoolExecutor(4) as ex:
-        fut_impl = ex.submit(run_harness, ctx, harness, lines)
-        fut_model = ex.submit(ctx.driver, ["c03", "ops"], "\n".join(lines) + "\n", 1500)
+    # batches: one per harness, very long lines (tens of thousands of entries: ~20 s each in the list-based model) on their own
+    groups = {}
+    for i, (l, m) in enumerate(zip_strict(lines, meta)):
+        h = HARNESS_OF.get(m["op"], "h_c03")
+        if m["op"] == "corpus":
+            h = HARNESS_OF.get(l.split()[0], "h_c03")
+        key = (h, i) if len(l) > 400000 else (h, -1)
+        groups.setdefault(key, []).append(i)
+    d8_lines = ["idsrange 65536"] + ([] if ctx.quick() else ["idsrange 65537"])
+    impl, model = [None] * len(lines), [None] * len(lines)
+    crashes = []
+    with cf.ThreadPoolExecutor(5) as ex:
+        futs = {key: ex.submit(run_batch, ctx, harnesses[key[0]], [lines[i] for i in idx]) for key, idx in sorted(groups.items(), key=lambda kv: -len(lines[kv[1][0]]))}
         # D8 replay: 65536 distinct ids (slow in the list-based model, run concurrently)
-        d8_lines = ["idsrange 65536"] + ([] if ctx.quick() else ["idsrange 65537"])
-        fut_d8i = ex.submit(run_harness, ctx, harness, d8_lines)
-        fut_d8m = ex.submit(ctx.driver, ["c03", "ops"], "\n".join(d8_lines) + "\n", 1500)
-        fut_d8o = ex.submit(ctx.driver, ["c03", "ops"], "\n".join(l.replace("idsrange", "idsrangeold") for l in d8_lines) + "\n", 1500)
-        impl, crash = fut_impl.result()
-        model = fut_model.result()
+        fut_d8i = ex.submit(run_harness, ctx, harnesses["h_c03"], d8_lines)
+        fut_d8m = ex.submit(driver_lines, ctx, d8_lines)
+        for key, fu in futs.items():
+            a, b, crash = fu.result()
+            idx = groups[key]
+            if crash:
+                crashes.append((idx[min(crash[0], len(idx) - 1)], crash))
+                a = a + ["<no answer: harness stopped>"] * (len(idx) - len(a))
+            for i, x, y in zip_strict(idx, a[:len(idx)], b):
+                impl[i], model[i] = x, y
         d8i, d8crash = fut_d8i.result()
-        d8m, d8o = fut_d8m.result(), fut_d8o.result()
+        d8m = fut_d8m.result()
     hist = {}
     nontrivial = set()
     disagreements = 0
-    if crash:
-        k, rc, err = crash
-        report(ctx, "crash:pieces:" + vlib.sha(lines[min(k, len(lines) - 1)])[:10],
-                      "real writer code aborted (rc=%d) on ops line %d: %s" % (rc, k, err[-400:]),
-                      {"kind": "ops", "line": lines[min(k, len(lines) - 1)], "stderr": err})
-        return {"evaluations": len(impl)}
-    old_cache = {}
-    for i, (l, m) in enumerate(zip(lines, meta)):
+    for i, (k, rc, err) in crashes:
+        report(ctx, "crash:pieces:" + vlib.sha(lines[i])[:10],
+               "real writer code aborted (rc=%d) on an ops line: %s" % (rc, err[-400:]),
+               {"kind": "ops", "line": lines[i], "stderr": err})
+    if crashes:
+        return {"evaluations": len(lines)}
+    for i, (l, m) in enumerate(zip_strict(lines, meta)):
         op = m["op"]
         hist[op] = hist.get(op, 0) + 1
         a, b = impl[i], model[i]
@@ -492,7 +956,7 @@ def pieces(ctx, harness):
                 nontrivial.add(vlib.sha(l)[:12])
             if toolong:
                 # the witness model (unrepaired add_entry) must predict exactly this answer
-                old = ctx.driver(["c03", "ops"], l.replace("dirw ", "dirwold ", 1) + "\n")[0]
+                old = driver_lines(ctx, [l.replace("dirw ", "dirwold ", 1)])[0]
                 what = "sqfs_dir_writer_add_entry stores a directory entry name of %s bytes (kernel limit 256; size field is 16 bit)" % m.get("longname")
                 if old == a:
                     report(ctx, K_D18, what, {"kind": "ops", "line": l[:200] + "...", "impl": a[:200], "witness_model": "dirwold agrees"})
@@ -505,7 +969,7 @@ def pieces(ctx, harness):
             if a not in ("0", "-") and not a.startswith("err"):
                 nontrivial.add(vlib.sha(l)[:12])
         if op == "dirw" and bad and all(x.startswith("INDEXCOUNT") for x in bad):
-            old = ctx.driver(["c03", "ops"], l.replace("dirw ", "dirwold ", 1) + "\n")[0]
+            old = driver_lines(ctx, [l.replace("dirw ", "dirwold ", 1)])[0]
             what = "sqfs_dir_writer_create_inode: %s (a directory with more than 65535 headers; the u16 index count wraps)" % bad[0][11:]
             if old == a:
                 report(ctx, K_D25, what, {"kind": "ops", "line": "dirw with %s alternating entries (see gen_ops)" % m.get("manyhdr"), "impl": a[-120:]})
@@ -526,8 +990,10 @@ def pieces(ctx, harness):
     if d8crash:
         report(ctx, "crash:ids65536", "real id table code aborted: %s" % d8crash[2][-300:], {"kind": "ops", "line": d8_lines[0]})
     else:
-        for l, a, b, o in zip(d8_lines, d8i, d8m, d8o):
+        for l, a, b in zip_strict(d8_lines, d8i, d8m):
             bad = monitor_idsrange({"n": int(l.split()[1])}, a)
+            # the witness model (unrepaired limit) is only consulted when something is off: it costs a minute
+            o = driver_lines(ctx, [l.replace("idsrange", "idsrangeold")])[0] if bad or a != b else None
             if bad and a == o:
                 report(ctx, K_D8, "sqfs_id_table accepts 65536 distinct ids; the u16 id_count written to the superblock wraps (%s)" % a,
                               {"kind": "ops", "line": l, "impl": a, "witness_model": o, "repaired_model": b})
@@ -539,9 +1005,13 @@ def pieces(ctx, harness):
                        {"kind": "ops", "line": l, "impl": a, "witness_model": o, "repaired_model": b})
             elif a != b:
                 report(ctx, "corr:" + l, "correspondence broke for %s: impl=%s model=%s" % (l, a, b), {"kind": "ops", "line": l}, found_input=False)
+    want_ops = {"conseq", "dirw", "dirx", "meta", "metak", "table", "blk", "ids", "idsrange", "names", "pad", "fino"}
+    if not want_ops <= set(hist):
+        raise vlib.CheckFailure("internal: no op line generated for %s" % sorted(want_ops - set(hist)))
+    targets = sorted(m["dirsize"] for m in meta if "dirsize" in m)
     ctx.log("writer pieces: %d op lines, %.1fs" % (len(lines) + len(d8_lines), time.time() - t0))
     return {"evaluations": len(lines) + len(d8_lines), "ops_histogram": hist, "nontrivial": len(nontrivial), "disagreements": disagreements,
-            "corpus_lines": ncorpus,
+            "corpus_lines": ncorpus, "dir_listing_sizes_near_64k": targets,
             "samples": [{"line": lines[i][:160], "impl": impl[i][:160], "model": model[i][:160]} for i in (0, len(lines) // 3, len(lines) - 1)]}
 
 
@@ -579,7 +1049,7 @@ def codec_probe(ctx, harness):
         return {"codec_probes": len(out)}
     hist = {}
     short_lz4 = []
-    for l, (backend, n, kind, outsize, d), a in zip(lines, meta, out):
+    for l, (backend, n, kind, outsize, d), a in zip_strict(lines, meta, out):
         kv = dict(x.split("=", 1) for x in a.split() if "=" in x)
         ret = int(kv.get("ret", "-1000"))
         cls = "zero" if ret == 0 else "smaller" if 0 < ret < n else "not-smaller" if ret >= n else "error"
@@ -602,8 +1072,8 @@ def codec_probe(ctx, harness):
                 report(ctx, "codec-contract:%s:%d:%s" % (backend, n, kind), what, {"kind": "ops", "line": l[:400], "impl": a})
     # the witness model of the unrepaired wrapper predicts the short cases byte for byte
     if short_lz4:
-        pred = ctx.driver(["c03", "ops"], "\n".join("lz4short " + hx(d) for _, _, d in short_lz4) + "\n")
-        for (l, a, d), p in zip(short_lz4, pred):
+        pred = driver_lines(ctx, ["lz4short " + hx(d) for _, _, d in short_lz4])
+        for (l, a, d), p in zip_strict(short_lz4, pred):
             kv = dict(x.split("=", 1) for x in a.split() if "=" in x)
             if p != "ret=%s out=%s" % (kv.get("ret"), kv.get("out")):
                 report(ctx, "witness-lz4:" + vlib.sha(l)[:10], "witness model lz4Short does not predict the real wrapper: %s vs %s" % (p, a),
@@ -645,6 +1115,8 @@ class Tree:
 def build_tree(rng, shape, bs):
     t = Tree()
     ids = lambda: rng.choice([0, 0, 1, 1000, 65534, 65535, 65536, 0xFFFFFFFE])
+    # extended symlink / device / fifo / socket inodes exist only with an xattr: give some of them one
+    oxattr = lambda: [("user.t", rng.choice([b"1", b"tagged-node"]))] if rng.random() < 0.4 else []
     if shape["kind"] == "mixed":
         n = shape.get("n", 40)
         sizes = [0, 1, 100, bs - 1, bs, bs + 1, 2 * bs + 7, 3 * bs]
@@ -672,12 +1144,13 @@ def build_tree(rng, shape, bs):
                         xs.append(("security.selinux", b"system_u:object_r:thing_t:s0"))
                 t.add_file(nm, data, mode=rng.choice([0o644, 0o600, 0o755, 0o4755]), uid=ids(), gid=ids(), xattrs=xs)
             elif r < 0.65:
-                t.add(nm, type="slink", mode=0o777, uid=ids(), gid=ids(), target=rng.choice(["/x", "../y", "t" * rng.choice([1, 100, 300])]))
+                t.add(nm, type="slink", mode=0o777, uid=ids(), gid=ids(), target=rng.choice(["/x", "../y", "t" * rng.choice([1, 100, 300])]),
+                      xattrs=oxattr())
             elif r < 0.75:
                 ma, mi = rng.randrange(0, 4096), rng.choice([0, 1, 255, 256, 70000])
-                t.add(nm, type=rng.choice(["cdev", "bdev"]), mode=0o600, uid=ids(), gid=ids(), major=ma, minor=mi)
+                t.add(nm, type=rng.choice(["cdev", "bdev"]), mode=0o600, uid=ids(), gid=ids(), major=ma, minor=mi, xattrs=oxattr())
             elif r < 0.85:
-                t.add(nm, type=rng.choice(["fifo", "sock"]), mode=0o644, uid=ids(), gid=ids())
+                t.add(nm, type=rng.choice(["fifo", "sock"]), mode=0o644, uid=ids(), gid=ids(), xattrs=oxattr())
             else:
                 t.add(nm + "_dir", type="dir", mode=rng.choice([0o755, 0o700, 0o1777]), uid=ids(), gid=ids(),
                       xattrs=[("user.dirattr", b"1")] if rng.random() < 0.3 else [])
@@ -713,6 +1186,10 @@ def build_tree(rng, shape, bs):
         if shape.get("follow"):
             t.add_file("/p/c", rng.randbytes(bs + bs // 2))
             t.add_file("/p/d", blk * 2 + b"zz")
+    elif shape["kind"] == "manyfrags":
+        # > 512 fragment blocks: the fragment table (16 bytes per entry) needs more than one metadata block
+        for i in range(shape["n"]):
+            t.add_file("/fr/t%04d" % i, rng.randbytes(bs // 2 + 1 + i % 7))
     elif shape["kind"] == "small-random":
         # D11 shape: short incompressible files, tail packing off and on
         for i, sz in enumerate([100, 1, 12, 13, 4095, bs + 100]):
@@ -780,33 +1257,63 @@ def write_tar(t, path):
             tf.addfile(ti, io.BytesIO(data) if data is not None else None)
         # hard links (tar is the only way to get them into an image on the unrepaired tree; pack files: D10)
         files = [p for p in sorted(t.nodes) if t.nodes[p]["type"] == "file"]
-        for k, p in enumerate(files[:6]):
-            ti = tarfile.TarInfo("zz_hardlinks/l%d" % k if k % 2 else "a_hardlink_%d" % k)
+        links = {}
+        # every third link sits in a directory that is numbered *before* its target's directory (reorder_hard_links must move
+        # the target in front of it), the others in directories numbered after their targets
+        for k, p in enumerate(files[:4] + files[-4:] if len(files) >= 8 else files[:6]):
+            ti = tarfile.TarInfo(["a_hardlink_%d" % k, "zz_hardlinks/l%d" % k, "a/a/early/l%d" % k][k % 3])
             ti.type, ti.linkname, ti.mtime = tarfile.LNKTYPE, p.lstrip("/"), 0
             tf.addfile(ti)
+            links[p] = links.get(p, 0) + 1
+    return links
 
 
-def describe(ctx, unz, img, devblk=4096, want_parse=True):
-    """image -> (validate lines, parse lines)"""
+def describe(ctx, unz, img, devblk=4096, want_parse=True, payload=False):
+    """image -> (validate lines, parse lines[, {(offset, stored size): unpacked bytes} of every data/fragment block])
+    Every helper's exit status and answer count is checked: a block request without an answer is an error of the
+    check, never a silently skipped rule."""
     r = shx([str(unz), str(img)], timeout=300)
     if r.returncode != 0:
-        return ["viol desc-unz unz failed: " + r.stderr[-200:]], []
+        return (["viol desc-unz unz failed: " + r.stderr[-200:]], []) + (({},) if payload else ())
     desc = r.stdout
-    req = "\n".join(ctx.driver(["c03", "blockreq"], desc)) + "\n"
+    if not desc.rstrip().endswith("end"):
+        raise vlib.CheckFailure("unz: description of %s is incomplete (no `end` line)" % img)
+    reqs = ctx.driver(["c03", "blockreq"] + (["all"] if payload else []), desc)
     rq = Path(str(img) + ".req")
-    rq.write_text(req)
-    r2 = shx([str(unz), "-b", str(rq), str(img)], timeout=300)
-    full = desc + r2.stdout
-    val = ctx.driver(["c03", "validate", str(devblk)], full)
-    par = ctx.driver(["c03", "parse"], desc) if want_parse else []
+    rq.write_text("\n".join(reqs) + "\n")
+    r2 = shx([str(unz), "-b", str(rq)] + (["-P"] if payload else []) + [str(img)], timeout=300)
     rq.unlink()
+    if r2.returncode != 0:
+        raise vlib.CheckFailure("unz -b failed (%d) on %s: %s" % (r2.returncode, img, r2.stderr[-300:]))
+    answers = [l for l in r2.stdout.splitlines() if l.startswith("d ")]
+    if len(answers) != len([q for q in reqs if q.startswith("blk ")]):
+        raise vlib.CheckFailure("unz -b answered %d of %d block requests for %s" % (len(answers), len(reqs), img))
+    blocks = {}
+    if payload:
+        for l in answers:
+            f = l.split(" ")
+            if f[4] == "ok" and len(f) >= 8:
+                blocks[(int(f[1]), int(f[2]))] = bytes.fromhex(f[7]) if f[7] != "-" else b""
+        keep = "\n".join(" ".join(l.split(" ")[:7]) if l.startswith("d ") else l for l in r2.stdout.splitlines()) + "\n"
+    else:
+        keep = r2.stdout
+    full = desc + keep
+    val = ctx.driver(["c03", "validate", str(devblk)], full)
+    if not any(v.startswith("summary ") for v in val):
+        raise vlib.CheckFailure("validator printed no summary line for %s" % img)
+    summ = dict(kv.split("=") for kv in next(v for v in val if v.startswith("summary ")).split()[1:])
+    if int(summ.get("data_unverified", "1")) != 0:
+        raise vlib.CheckFailure("validator left %s compressed data blocks unverified although every block was requested (%s)" % (summ.get("data_unverified"), img))
+    par = ctx.driver(["c03", "parse"], desc) if want_parse else []
     # tie of the `finish` layout model: predicted table starts / bytes_used / file size vs the real superblock
     line, actual = layout_line(desc, devblk)
     if line:
-        pred = ctx.driver(["c03", "ops"], line + "\n")[0]
+        pred = driver_lines(ctx, [line])[0]
         if pred != actual:
             val = val + ["layout-model %s => model %s, image %s" % (line, pred, actual)]
-    return val, par
+    else:
+        val = val + ["viol desc-super no superblock in the description"]
+    return (val, par, blocks) if payload else (val, par)
 
 
 def layout_line(desc, devblk):
@@ -839,10 +1346,45 @@ def layout_line(desc, devblk):
     return line, actual
 
 
-def compare_tree(t, parse_lines, via_tar=False):
-    """generated tree vs the independent parser's output"""
+def file_content(o, frags, bs, blocks):
+    """bytes of a regular file reassembled from the independent parser's inode description and the unpacked blocks;
+    raises ValueError when a block the inode names was not on disk where the inode says"""
+    out = bytearray()
+    loc = o["start"]
+    for w in o["blocks"]:
+        want = min(bs, o["size"] - len(out))
+        if w == 0:
+            out += b"\0" * want
+            continue
+        sz = w & 0xFFFFFF
+        d = blocks.get((loc, sz))
+        if d is None:
+            raise ValueError("block at %d (+%d) could not be read back" % (loc, sz))
+        if len(d) != want:
+            raise ValueError("block at %d unpacks to %d bytes, the file needs %d there" % (loc, len(d), want))
+        out += d
+        loc += sz
+    if len(out) < o["size"]:
+        fi, fo = o["frag"]
+        if fi == 0xFFFFFFFF or fi >= len(frags):
+            raise ValueError("%d bytes not covered by blocks and no fragment" % (o["size"] - len(out)))
+        fs, fw = frags[fi]
+        d = blocks.get((fs, fw & 0xFFFFFF))
+        if d is None:
+            raise ValueError("fragment block %d could not be read back" % fi)
+        tail = d[fo:fo + o["size"] - len(out)]
+        if len(tail) != o["size"] - len(out):
+            raise ValueError("tail [%d,+%d) not inside fragment block %d (%d bytes)" % (fo, o["size"] - len(out), fi, len(d)))
+        out += tail
+    return bytes(out)
+
+
+def compare_tree(t, parse_lines, via_tar=False, blocks=None, extra_links=None):
+    """generated tree vs the independent parser's output (attributes, link counts, xattrs and — given the unpacked
+    data blocks — every file's content)"""
     bad = []
     got = {}
+    frags, bs = [], 0
     for l in parse_lines:
         try:
             o = json.loads(l)
@@ -852,9 +1394,14 @@ def compare_tree(t, parse_lines, via_tar=False):
             bad.append("parser reports: " + l[:200])
         if "path" in o:
             got[o["path"].encode("latin-1").decode("latin-1")] = o
+        if "fragments" in o:
+            frags = o["fragments"]
+        if "super" in o:
+            bs = o["super"]["block_size"]
     want = dict(t.nodes)
     want.setdefault("/", {"type": "dir", "mode": 0o755, "uid": 0, "gid": 0})
     tmap = {"dir": "dir", "file": "file", "slink": "slink", "cdev": "cdev", "bdev": "bdev", "fifo": "fifo", "sock": "sock"}
+    nchk = 0
     for p, n in want.items():
         if via_tar and n["type"] == "sock":
             continue
@@ -868,18 +1415,35 @@ def compare_tree(t, parse_lines, via_tar=False):
             bad.append("%s: mode/uid/gid %o/%s/%s, expected %o/%d/%d" % (p, o["mode"], o["uid"], o["gid"], n["mode"], n["uid"], n["gid"]))
         if n["type"] == "file" and o["size"] != n["size"]:
             bad.append("%s: size %d, expected %d" % (p, o["size"], n["size"]))
+        elif n["type"] == "file" and blocks is not None:
+            try:
+                if file_content(o, frags, bs, blocks) != t.files[n["src"]]:
+                    bad.append("%s: content read back from the image differs from the packed file" % p)
+                nchk += 1
+            except ValueError as e:
+                bad.append("%s: %s" % (p, e))
         if n["type"] == "slink" and o["target"] != n["target"]:
             bad.append("%s: target differs" % p)
         if n["type"] in ("cdev", "bdev") and o["dev"] != makedev(n["major"], n["minor"]):
             bad.append("%s: dev %d, expected %d" % (p, o["dev"], makedev(n["major"], n["minor"])))
+        if n["type"] != "dir":
+            links = 1 + (extra_links or {}).get(p, 0)
+            if o["nlink"] != links:
+                bad.append("%s: link count %d, expected %d" % (p, o["nlink"], links))
         if not via_tar:
             wx = sorted((k, v.hex()) for k, v in n.get("xattrs", []))
             gx = sorted((k, v) for k, v in o["xattrs"]) if isinstance(o["xattrs"], list) else o["xattrs"]
             if wx != gx:
                 bad.append("%s: xattrs %s, expected %s" % (p, gx, wx))
+    # this writer's rule for directories (fstree.c mknode: every entry, of any kind, bumps the parent): exactly entries + 2
+    for p, o in got.items():
+        if o["type"] == "dir" and o["nlink"] != o["entries"] + 2:
+            bad.append("%s: directory link count %d with %d entries" % (p, o["nlink"], o["entries"]))
     extra = [p for p in got if p not in want]
     if extra and not via_tar:
         bad.append("unexpected paths in image: %s" % extra[:5])
+    if blocks is not None and nchk == 0 and any(n["type"] == "file" for n in want.values()):
+        bad.append("no file content could be compared")
     return bad
 
 
@@ -923,11 +1487,16 @@ def image_jobs(ctx):
             desc["packdir"] = True
         jobs.append(dict(desc=desc, **kw))
 
+    # device block sizes (-B): the tools accept anything >= 1024; powers of two and not (primes, odd multiples, 10^6)
+    odd = [b for b in DEVBLKS if b & (b - 1)]
+    rng.shuffle(odd)
+    devs = odd + [rng.randrange(1024, 1 << 20) | 1 for _ in range(4)]
+    nb = lambda: ["-B", str(devs.pop() if devs else rng.choice(DEVBLKS))]
     for comp in comps:
-        job({"kind": "small-random"}, comp, 4096, [])
-        job({"kind": "small-random"}, comp, 4096, ["-T"])
-        job({"kind": "mixed", "n": 40}, comp, rng.choice([4096, 8192]), rng.choice([[], ["-e"], ["-T"], ["-e", "-T", "-j", "4"]]))
-        job({"kind": "mixed", "n": 25}, comp, rng.choice([4096, 16384]), ["-e"], tool="tar2sqfs")
+        job({"kind": "small-random"}, comp, 4096, nb())
+        job({"kind": "small-random"}, comp, 4096, ["-T"] + (nb() if rng.random() < 0.5 else []))
+        job({"kind": "mixed", "n": 40}, comp, rng.choice([4096, 8192]), rng.choice([[], ["-e"], ["-T"], ["-e", "-T", "-j", "4"]]) + (nb() if rng.random() < 0.5 else []))
+        job({"kind": "mixed", "n": 25}, comp, rng.choice([4096, 16384]), ["-e"] + nb(), tool="tar2sqfs")
     for n in ([255, 256, 257] if q else [1, 2, 255, 256, 257, 258, 511, 512, 513, 1024, 3000]):
         job({"kind": "bigdir", "n": n, "namelen": rng.choice([4, 24])}, rng.choice(comps), 4096, rng.choice([[], ["-e"]]))
     # listing around 8 KiB of metadata and around 64 KiB (basic vs extended directory inode)
@@ -945,8 +1514,10 @@ def image_jobs(ctx):
                 shp["third"] = n + 1
             job(shp, comps[k % 4] if not q else ["gzip", "zstd", "xz", "lz4"][k % 4], bs, [] if k % 5 else ["-T"], packdir=(k % 3 == 0))
     job({"kind": "ids", "n": 300}, rng.choice(comps), 4096, [])
+    # id table and export table of more than one metadata block (> 2048 ids, > 1024 inodes): the location lists
+    job({"kind": "ids", "n": rng.choice([2049, 2100, 4100])}, rng.choice(comps), 4096, ["-e"] + nb())
     job({"kind": "xattrs", "n": 600 if q else 1100}, rng.choice(comps), 4096, [])
-    job({"kind": "mixed", "n": 30}, "gzip", 131072, ["-B", "8192"], devblk=8192)
+    job({"kind": "mixed", "n": 30}, "gzip", 131072, ["-B", "8192"])
     job({"kind": "mixed", "n": 12}, "zstd", 1048576, ["-j", "3"])
     if not q:
         for comp in comps:
@@ -954,6 +1525,10 @@ def image_jobs(ctx):
                 job({"kind": "mixed", "n": 60}, comp, bs, rng.choice([[], ["-e"], ["-T"], ["-e", "-T"], ["-j", "1"], ["-j", "6", "-Q", "3"]]))
                 job({"kind": "mixed", "n": 40}, comp, bs, rng.choice([[], ["-e"], ["-T"]]), tool="tar2sqfs")
         job({"kind": "ids", "n": 65535}, "gzip", 4096, [])
+        job({"kind": "manyfrags", "n": 1100}, rng.choice(comps), 4096, [])
+        job({"kind": "bigfile"}, "gzip", 1048576, [])
+        for b in DEVBLKS:
+            job({"kind": "small-random"}, rng.choice(comps), 4096, ["-B", str(b)], tool=rng.choice(["gensquashfs", "tar2sqfs"]))
         job({"kind": "manyheaders", "n": 65540}, "gzip", 4096, [], tool="tar2sqfs")
         job({"kind": "ids", "n": 2049, "base": 70000}, "lz4", 4096, ["-e"])
         job({"kind": "bigdir", "n": 40000, "namelen": 6, "empty": True}, "zstd", 4096, ["-e"])
@@ -974,7 +1549,20 @@ def run_image_job(ctx, tools, unz, job, idx):
     img = wd / "out.sqfs"
     env = ctx.san_env()
     res = {"job": job, "viol": [], "tree_bad": [], "rc": None, "stderr": "", "nodes": len(t.nodes), "summary": ""}
-    if d["shape"]["kind"] == "manyheaders":
+    devblk = int(d["opts"][d["opts"].index("-B") + 1]) if "-B" in d["opts"] else 4096
+    links = None
+    if d["shape"]["kind"] == "bigfile":
+        # a file of 4 GiB + 1 byte (a hole): the size no longer fits the basic file inode
+        t = Tree()
+        wd.mkdir(parents=True, exist_ok=True)
+        with open(wd / "big", "wb") as f:
+            f.truncate((1 << 32) + 1)
+        t.add("/big", type="file", mode=0o644, uid=0, gid=0, src="big", size=(1 << 32) + 1, xattrs=[])
+        (wd / "pack.txt").write_text("file /big 0644 0 0 big\n")
+        r = shx([str(tools["gensquashfs"]), "-q", "-f", "-c", d["comp"], "-b", str(d["bs"]), "-F", str(wd / "pack.txt"), "-D", str(wd), str(img)],
+                env=env, timeout=1500)
+        (wd / "big").unlink()
+    elif d["shape"]["kind"] == "manyheaders":
         # 65540 hard links alternating between two files whose inodes live in different metadata blocks: one header each
         t = None
         wd.mkdir(parents=True, exist_ok=True)
@@ -1018,18 +1606,23 @@ def run_image_job(ctx, tools, unz, job, idx):
             cmd += ["-A", str(wd / "xattr.txt")]
         r = shx(cmd + [str(img)], env=env, timeout=600)
     else:
-        write_tar(t, wd / "in.tar")
+        links = write_tar(t, wd / "in.tar")
         with open(wd / "in.tar", "rb") as f:
             r = shx([str(tools["tar2sqfs"]), "-q", "-f", "-c", d["comp"], "-b", str(d["bs"])] + d["opts"] + [str(img)], stdin=f, env=env, timeout=600)
     res["rc"], res["stderr"] = r.returncode, r.stderr[-600:]
     res["t_pack"] = time.time() - t0
     if r.returncode == 0:
-        val, par = describe(ctx, unz, img, job.get("devblk", 4096))
+        content = t is not None and d["shape"]["kind"] != "bigfile" and not job.get("ids65536")
+        if content:
+            val, par, blocks = describe(ctx, unz, img, devblk, payload=True)
+        else:
+            (val, par), blocks = describe(ctx, unz, img, devblk), None
         res["viol"] = [v for v in val if v.startswith("viol ")]
         res["layout_bad"] = [v for v in val if v.startswith("layout-model ")]
         res["summary"] = next((v for v in val if v.startswith("summary")), "")
         if not job.get("ids65536") and t is not None:
-            res["tree_bad"] = compare_tree(t, par, via_tar=(d["tool"] == "tar2sqfs"))
+            res["tree_bad"] = compare_tree(t, par, via_tar=(d["tool"] == "tar2sqfs"), blocks=blocks, extra_links=links)
+            res["files_compared"] = sum(1 for n in t.nodes.values() if n["type"] == "file") if blocks is not None else 0
         if t is None and d["shape"]["kind"] == "packdir":
             # hard links must show up as several paths sharing one inode whose link count is the number of paths
             inos = {}
@@ -1039,7 +1632,7 @@ def run_image_job(ctx, tools, unz, job, idx):
                     inos.setdefault(o["ino"], []).append(o["nlink"])
             if not any(len(v) == 3 and v[0] == 3 for v in inos.values()):
                 res["tree_bad"] = ["no file with three hard links found in an image packed from a directory that has them"]
-        if idx % 5 == 0 and d["shape"]["kind"] in ("mixed", "bigdir"):
+        if d["shape"]["kind"] in ("mixed", "bigdir"):
             res["rd_bad"] = cross_rdsquashfs(ctx, tools, img, par)
     import shutil
     shutil.rmtree(wd, ignore_errors=True)
@@ -1184,8 +1777,10 @@ def images(ctx, tools, unz):
             k, v = kv.split("=")
             if k in tot:
                 tot[k] += int(v)
-        if tot["data_unverified"]:
-            pass
+        tot["files_compared"] = tot.get("files_compared", 0) + r.get("files_compared", 0)
+    packed = len(results) - refused
+    if not results or packed == 0 or tot["inodes"] == 0 or tot["data_checked"] == 0 or tot.get("files_compared", 0) == 0:
+        raise vlib.CheckFailure("internal: the image part validated nothing (%d jobs, %d packed, totals %s)" % (len(results), packed, tot))
     return {"images": len(results), "images_refused": refused, "image_histogram": hist, "validator_violation_lines": nviol, "image_totals": tot,
             "image_samples": [{"job": r["job"]["desc"], "rc": r["rc"], "summary": r["summary"], "viol": r["viol"][:2]} for r in results[:3]]}
 
@@ -1198,6 +1793,8 @@ def build_all(ctx):
     unz = ctx.cc("unz", ["unz.c"], sanitize=False, libs=["-lz", "-llzma", "-llz4", "-lzstd"])
     tools = {t: ctx.build_tool(t) for t in ("gensquashfs", "tar2sqfs", "rdsquashfs")}
     tools["h_c03n"] = ctx.cc("h_c03n", ["h_c03n.c", str(lib)], libs=vlib.CODEC_LIBS)
+    tools["h_c03f"] = ctx.cc("h_c03f", ["h_c03f.c", str(lib)], libs=vlib.CODEC_LIBS)
+    tools["h_c03"] = harness
     return harness, unz, tools
 
 
@@ -1212,7 +1809,7 @@ def run(ctx):
     harness, unz, tools = build_all(ctx)
     ctx.log("built library, harness, unz, tools")
     with cf.ThreadPoolExecutor(3) as ex:
-        f1 = ex.submit(pieces, ctx, harness)
+        f1 = ex.submit(pieces, ctx, tools)
         f3 = ex.submit(images, ctx, tools, unz)
         c2 = codec_probe(ctx, harness)
         ctx.log("codec probe done")
@@ -1228,28 +1825,40 @@ def run(ctx):
     ctx.cov.update(c3)
     ctx.cov.update(c4)
     ctx.cov["long_name_probe"] = ln
+    for part, n in (("writer pieces", c1.get("evaluations", 0)), ("codec probe", c2.get("codec_probes", 0)), ("images", c3.get("images", 0)),
+                    ("numbering", c4.get("numbering_lines", 0)), ("long names", len(ln)), ("parser self-check", c4.get("hostile_mutants", 0))):
+        if n == 0 and not ctx.violations:
+            raise vlib.CheckFailure("internal: part '%s' of the check evaluated nothing" % part)
     ctx.cov["evaluations"] = c1.get("evaluations", 0) + c2.get("codec_probes", 0) + c3.get("images", 0) + len(ln) + c4.get("numbering_lines", 0)
     ctx.cov["distinct_nontrivial"] = c1.get("nontrivial", 0) + c3.get("images", 0) - c3.get("images_refused", 0) + c4.get("numbering_equal_to_model", 0)
     ctx.cov["disagreements_checked"] = c1.get("disagreements", 0) + c3.get("validator_violation_lines", 0)
     ctx.cov["rule"] = ("writer pieces: generated entry lists (same block / block changes / inode-number jumps of +-32767..70000 / u32 wrap / long names; "
-                       "lengths 1..513 around 256; start offsets around the 8 KiB boundary), meta writer chunk patterns around multiples of 8192 with "
-                       "three test codecs (never shrinks / shrinks constant runs / grows like the unrepaired lz4), process_block over flags x data, id "
-                       "sequences incl. 65535/65536 distinct ids — each through the real C function (ASan+UBSan) and the Lean model, answers compared and "
-                       "checked by independent Python monitors; non-trivial = distinct op line with a non-error, non-empty answer. codec probe: every "
-                       "backend x size class x data kind. images: generated trees (mixed inode kinds/sizes 0,1,bs-1,bs,bs+1,sparse,dup,xattrs; "
-                       "directories of 255..513 (thorough: ..40000) entries, listings around 8 KiB and 64 KiB, 300..65536 ids, 600..1100 xattr sets) x "
-                       "{gzip,xz,lz4,zstd} x block sizes x -T/-e/-j/-B through real gensquashfs and tar2sqfs, validated by the Lean validator and "
-                       "compared with the generated tree; every image that packs counts as non-trivial")
+                       "lengths 1..513 around 256; start offsets around the 8 KiB boundary; listing sizes 65531..65536; 65535..65541 headers) through "
+                       "the real dir writer on a never-shrinking (dirw) and on shrinking, optionally in-memory meta writers with export table (dirx); "
+                       "meta writer chunk patterns around multiples of 8192 with four test codecs (never shrinks / shrinks constant runs / grows like the "
+                       "unrepaired lz4 / shrinks trailing runs, invertible), with and without KEEP_IN_MEMORY; sqfs_write_table over sizes around multiples "
+                       "of 8192 x data kinds x base offsets; process_block + process_completed_block over 15 flag sets (incl. FRAGMENT_BLOCK) x data; inode.c "
+                       "operation sequences with values around 2^32; id sequences incl. 65535/65536 distinct ids; name sequences with repetitions, prefixes "
+                       "and bytes >= 0x80 through fstree_add_generic; trees with hard links to arbitrary files through fstree_post_process; padd_sqfs over "
+                       "device block sizes that are and are not powers of two — each through the real C function (ASan+UBSan) and the Lean model, answers "
+                       "compared and checked by independent Python monitors; non-trivial = distinct op line with a non-error, non-empty answer. codec probe: "
+                       "every backend x size class x data kind. images: generated trees (mixed inode kinds/sizes 0,1,bs-1,bs,bs+1,sparse,dup, xattrs on every "
+                       "inode type; directories of 255..513 (thorough: ..40000) entries, listings around 8 KiB and 64 KiB, 300..65536 ids incl. multi-block id "
+                       "and export tables, 600..1100 xattr sets, hard links that need reorder_hard_links) x {gzip,xz,lz4,zstd} x block sizes x -T/-e/-j x -B "
+                       "(non powers of two in >= 9 images per run) through real gensquashfs and tar2sqfs, validated by the Lean validator and compared with the "
+                       "generated tree incl. file contents; every image that packs counts as non-trivial")
     return ctx.finish(LEVEL, trusted_extra=[
         "harness/unz.c (locates regions from superblock offsets, strips the 2-byte metadata headers, calls zlib/liblzma/liblz4/libzstd); "
         "all structure is decoded in Lean from doc/format.adoc",
         "the validator Sqfs/Model/ImageValidate.lean is the executable statement of the invariants (trusted as a specification, not proved about a whole-writer model)",
-        "modelled, not verified directly: lib/sqfs/src/dir_writer.c (add_entry, get_conseq_entry_count, end, create_inode), meta_writer.c (append, flush), "
-        "block_processor.c process_block, id_table.c id_to_index/write, write_table.c",
+        "the four test codecs of harness/h_c03.c, their Lean mirrors in Driver/C03.lean and their inverses in tools/checks/c03.py",
+        "modelled, not verified directly: dir_writer.c, meta_writer.c, write_table.c, block_processor.c process_block, backend.c process_completed_block "
+        "(size word), id_table.c, fstree.c (insert_sorted, child_by_name, mknode), post_process.c, inode.c (file inodes), finish.c (padd_sqfs, layout arithmetic)",
     ], assumptions=[
         "Codec.Shrinks (do_block returns 0 unless strictly smaller) is a hypothesis of meta_stored_le_unpacked and data_block_size_rule; it is probed on the "
         "real gzip/xz/lz4/zstd backends on every run, not proved (third-party libraries)",
-        "theorems cover the writer's pieces; the composition into a whole image is covered by running the validator on real images only",
+        "link_targets_before_linking_dirs assumes hard links name existing non-directory nodes (what resolve_link enforces; not modelled here)",
+        "theorems cover the writer's pieces; the composition into a whole image is covered by running the validator and the tree/content comparison on real images only",
     ])
 
 
@@ -1264,8 +1873,8 @@ def replay(ctx, path):
         if line.endswith("..."):
             print("replay line was truncated in the record; re-run the check with the recorded seed:", body.get("seed"))
             return 1
-        impl, crash = run_harness(ctx, harness, [line])
-        model = ctx.driver(["c03", "ops"], line + "\n")
+        impl, crash = run_harness(ctx, tools[HARNESS_OF.get(line.split()[0], "h_c03")], [line])
+        model = driver_lines(ctx, [line])
         print("line :", line[:300])
         print("impl :", impl, "crash:", crash)
         print("model:", model)
@@ -1283,9 +1892,9 @@ def replay(ctx, path):
         model = ctx.driver(["c03", "ops"], rp["line"] + "\n")
         print("impl :", impl, "crash:", crash)
         print("model:", model)
-        bad = monitor_num({"spec": rp["line"][4:]}, impl[0]) if impl else ["crash"]
+        bad = monitor_num({"spec": rp["line"][4:]}, impl[0]) + monitor_num_links(rp["line"][4:], impl[0]) if impl else ["crash"]
         print("clauses:", bad)
-        return 1 if bad or crash or (impl != model and "h" not in rp["line"]) else 0
+        return 1 if bad or crash or impl != model else 0
     if kind == "longname":
         before = len(ctx.violations) + len(ctx.known_hits)
         print(long_name_probe(ctx, tools, unz))
